@@ -24,6 +24,11 @@ type CaseC10 struct {
 	Conds   []Cond                 `json:"conds,omitempty"`
 	NewKind string                 `json:"new_kind"` // scalar | map | Map | str | str-bool | str-num
 	Sep     string                 `json:"sep,omitempty"`
+	// Pre is an earlier update of the same Map (a history of two calls): the library stores the one
+	// value object at every node it addresses, so the Map the second call works on shares structure.
+	PreSteps []string    `json:"pre_steps,omitempty"`
+	PreKey   string      `json:"pre_key,omitempty"`
+	PreVal   interface{} `json:"pre_val,omitempty"`
 }
 
 func init() { register("C10", checkC10) }
@@ -67,9 +72,60 @@ func boostListParent(t *rapid.T) (map[string]interface{}, []string, string) {
 	return root, steps, key
 }
 
+// boostHistory: a first update puts one list value into several nodes; the second update addresses one of them.
+func boostHistory(t *rapid.T) CaseC10 {
+	var c CaseC10
+	c.Src = "boost-two-call-history"
+	key := rapid.SampledFrom(shapeKeys).Draw(t, "key")
+	nodes := []string{"x", "y", "w"}[:rapid.IntRange(2, 3).Draw(t, "nnodes")]
+	c.Map = map[string]interface{}{"z": instScalar(t)}
+	for _, n := range nodes {
+		c.Map[n] = map[string]interface{}{key: instScalar(t), "o": instScalar(t)}
+	}
+	states := []string{"old", "new", "x"}
+	nl := rapid.IntRange(1, 4).Draw(t, "nl")
+	l := make([]interface{}, nl)
+	for i := range l {
+		if rapid.IntRange(0, 4).Draw(t, "scalar") == 0 {
+			l[i] = instScalar(t)
+		} else {
+			l[i] = map[string]interface{}{"state": rapid.SampledFrom(states).Draw(t, "st"), "t": float64(i)}
+		}
+	}
+	c.PreSteps, c.PreKey = []string{"*", key}, key
+	if rapid.Bool().Draw(t, "prelist") {
+		c.PreVal = l
+	} else {
+		c.PreVal = map[string]interface{}{key: l, "state": rapid.SampledFrom(states).Draw(t, "st2")}
+	}
+	switch rapid.IntRange(0, 2).Draw(t, "mainpath") {
+	case 0:
+		c.Steps = []string{rapid.SampledFrom(nodes).Draw(t, "node"), key}
+	case 1:
+		c.Steps = []string{"*", key}
+	default:
+		c.Steps = []string{rapid.SampledFrom(nodes).Draw(t, "node"), key, key}
+	}
+	c.Key = key
+	if rapid.IntRange(0, 3).Draw(t, "form2") == 0 {
+		c.Key = "t"
+	}
+	if rapid.IntRange(0, 4).Draw(t, "nocond") > 0 {
+		c.Conds = []Cond{{Key: "state", Val: rapid.SampledFrom(states).Draw(t, "cst"), Neg: rapid.IntRange(0, 4).Draw(t, "neg") == 0}}
+	}
+	c.NewKind = rapid.SampledFrom([]string{"scalar", "scalar", "map"}).Draw(t, "newkind")
+	c.Sep = ":"
+	return c
+}
+
 func genC10(t *rapid.T) CaseC10 {
 	var c CaseC10
-	if rapid.IntRange(0, 9).Draw(t, "src") == 0 {
+	src := rapid.IntRange(0, 9).Draw(t, "src")
+	// boostHistory (two-call histories) is deliberately NOT drawn: after a first call that stores one container
+	// at several nodes the Map shares structure, and then even the unchanged library shows writes at positions the
+	// second call does not address (form 2 writes into the shared member map). C10 quantifies over single calls on
+	// tree-shaped Maps; see DESIGN.md "seeded change C10-a". Saved cases with pre_steps can still be replayed.
+	if src == 0 {
 		c.Src = "boost-list-parent"
 		c.Map, c.Steps, c.Key = boostListParent(t)
 	} else {
@@ -300,7 +356,21 @@ func checkC10(c CaseC10, info *Info) *Failure {
 	}
 	path := strings.Join(c.Steps, ".")
 	sp := specs(c.Conds, sep)
-	js := canon(c.Map)
+	if c.PreKey != "" && len(c.PreSteps) > 0 {
+		// first call of the history, run on the subject itself so that whatever it shares stays shared
+		first := copyMap(c.Map)
+		if _, err := mxj.Map(first).UpdateValuesForPath(map[string]interface{}{c.PreKey: c.PreVal}, strings.Join(c.PreSteps, ".")); err != nil {
+			return failf("error", "first call of the history: %v", err)
+		}
+		return checkC10on(c, first, sep, path, sp, info)
+	}
+	return checkC10on(c, copyMap(c.Map), sep, path, sp, info)
+}
+
+// checkC10on checks one update of 'subject' (which may share structure internally; all oracles work on deep copies).
+func checkC10on(c CaseC10, subject map[string]interface{}, sep, path string, sp []string, info *Info) *Failure {
+	start := copyMap(subject)
+	js := canon(start)
 	info.Class("src:" + c.Src)
 	info.Class("new value form:" + c.NewKind)
 
@@ -316,7 +386,7 @@ func checkC10(c CaseC10, info *Info) *Failure {
 		default:
 			val, spec = 42.5, c.Key+sep+"42.5"+sep+"num"
 		}
-		m1, m2 := copyMap(c.Map), copyMap(c.Map)
+		m1, m2 := copyMap(start), copyMap(start)
 		n1, e1 := mxj.Map(m1).UpdateValuesForPath(spec, path, sp...)
 		n2, e2 := mxj.Map(m2).UpdateValuesForPath(map[string]interface{}{c.Key: val}, path, sp...)
 		if n1 != n2 || (e1 == nil) != (e2 == nil) || !reflect.DeepEqual(m1, m2) {
@@ -330,9 +400,8 @@ func checkC10(c CaseC10, info *Info) *Failure {
 	if c.NewKind != "scalar" {
 		newVal = map[string]interface{}{"__new": sentinel}
 	}
-	before := copyMap(c.Map)
-	subject := copyMap(c.Map)
-	ps := refUpdateSets(copyMap(c.Map), c.Key, c.Steps, c.Conds, info)
+	before := copyMap(start)
+	ps := refUpdateSets(copyMap(start), c.Key, c.Steps, c.Conds, info)
 	var arg interface{} = map[string]interface{}{c.Key: deepCopy(newVal)}
 	if c.NewKind == "Map" {
 		arg = mxj.Map{c.Key: deepCopy(newVal)}
